@@ -115,8 +115,14 @@ impl Report {
             return;
         }
         self.violation_count += 1;
-        if self.violations.len() < 40 && !self.violations.iter().any(|v| v.key == key) {
-            self.violations.push(Violation { key, what, case });
+        self.store(Violation { key, what, case });
+    }
+    /// Keep at most 60 distinct violations, and at most 8 per family (first word of the key), so that a family which
+    /// fails everywhere cannot crowd out the one failure of another family.
+    fn store(&mut self, v: Violation) {
+        let fam = |k: &str| k.split_whitespace().next().unwrap_or("").to_string();
+        if self.violations.len() < 60 && !self.violations.iter().any(|x| x.key == v.key) && self.violations.iter().filter(|x| fam(&x.key) == fam(&v.key)).count() < 8 {
+            self.violations.push(v);
         }
     }
     pub fn machinery(&mut self, msg: String) {
@@ -133,9 +139,7 @@ impl Report {
         }
         self.violation_count += o.violation_count;
         for v in o.violations {
-            if self.violations.len() < 40 && !self.violations.iter().any(|x| x.key == v.key) {
-                self.violations.push(v);
-            }
+            self.store(v);
         }
         for s in o.samples {
             if self.samples.len() < 8 {
@@ -345,7 +349,20 @@ pub fn conclude(root: &str, meta: &Meta, tier: Tier, seed: u64, wall: f64, rep: 
     }
     let dir = format!("{root}/replays/{}", meta.id);
     let _ = std::fs::create_dir_all(&dir);
-    for v in unknown.iter().take(10) {
+    // print one violation of every family before a second one of any (at most 12 lines)
+    let fam = |k: &str| k.split_whitespace().next().unwrap_or("").to_string();
+    let mut seen: BTreeMap<String, usize> = BTreeMap::new();
+    let mut ranked: Vec<(usize, usize, &Violation)> = unknown
+        .iter()
+        .enumerate()
+        .map(|(i, v)| {
+            let r = seen.entry(fam(&v.key)).or_insert(0);
+            *r += 1;
+            (*r, i, *v)
+        })
+        .collect();
+    ranked.sort_by_key(|x| (x.0, x.1));
+    for (_, _, v) in ranked.iter().take(12) {
         let path = format!("{dir}/{:016x}.json", hash64(&v.key));
         let mut body = json!({"property": meta.id, "key": v.key, "what": v.what, "case": v.case,
             "replay": format!("./check {} --replay {}", meta.id, path)});
